@@ -82,16 +82,18 @@ def classify(prop, paths, twins, step=None, history=()):
 def _match(f, rest, twin, steps):
     site = f["site"]
     if site == "ExplodeColorLayerGlyphsFilter":
-        # precondition: palettes + a layer mapping and no explicit colorLayers
-        if (UFO2FT + "colorPalettes") not in twin["lib"] or (UFO2FT + "colorLayers") in twin["lib"]:
+        # (the in-place editing of the colour layers' glyphs was fixed; only the
+        # lib key written by set_context is still open)
+        if not rest.startswith("lib/" + UFO2FT + "colorLayers"):
             return False
-        layers = _color_layer_names(twin)
-        if not layers:
+        if (UFO2FT + "colorLayers") in twin["lib"]:
             return False
-        if rest.startswith("lib/" + UFO2FT + "colorLayers"):
-            return True
-        m = re.match(r"layers/([^/]+)/glyphs/", rest)
-        return bool(m and m.group(1) in layers)
+        # the filter runs either because the pre-processor installs it (palettes +
+        # a layer mapping) or because the caller invoked it explicitly
+        explicit = any(isinstance(d, dict) and d.get("cls") == "ExplodeColorLayerGlyphsFilter"
+                       for st in steps for d in (st or {}).get("opts", {}).get("filters", []) or [])
+        implicit = (UFO2FT + "colorPalettes") in twin["lib"] and bool(_color_layer_names(twin))
+        return explicit or implicit
     if site == "DottedCircleFilter.ensure_base":
         if not any(_has_dotted_circle_filter(twin, s) for s in steps):
             return False
